@@ -1063,14 +1063,14 @@ func c11PickScripts(rng *Rng, root any, extra int, thorough bool, stats *Stats) 
 			}
 		}
 		if exhaustive {
-			stats.Inc("gen.exhaustive_cases")
+			stats.Inc("exhaustive_cases")
 		}
 	}
 	parts := make([]string, len(scripts))
 	for i, s := range scripts {
 		parts[i] = s.String()
 	}
-	stats.Add("gen.scripts", int64(len(scripts)))
+	stats.Add("scripts", int64(len(scripts)))
 	return strings.Join(parts, ",")
 }
 
@@ -1100,7 +1100,7 @@ func (c11Suite) Gen(rng *Rng, tier string, w *bufio.Writer, stats *Stats) {
 				nl = 1
 			}
 			emit("v:"+t.String(), fmt.Sprintf("v %s %s %d %d %d", scripts, t.String(), seed, depth, nl))
-			stats.Inc("gen.values")
+			stats.Inc("values")
 		}
 	}
 	for _, c := range LoadCypherCorpus() {
@@ -1108,10 +1108,10 @@ func (c11Suite) Gen(rng *Rng, tier string, w *bufio.Writer, stats *Stats) {
 		if model, err := frontend.ParseCypher(frontend.NewContext(), c.Query); err == nil && model != nil {
 			scripts = c11PickScripts(rng, model, extra, thorough, stats)
 		} else {
-			stats.Add("gen.scripts", 2)
+			stats.Add("scripts", 2)
 		}
 		emit("q:"+c.Source, fmt.Sprintf("q %s %s", scripts, jsonQuote(c.Query)))
-		stats.Inc("gen.queries")
+		stats.Inc("queries")
 	}
 }
 
